@@ -200,6 +200,31 @@ def resultResidualBeforeD27 (dss : List Dataset) (t : Tables) (residuals : List 
     List (List Rat) :=
   (t.labels.zip residuals).filterMap (fun lr => cutBlock (msizeOf dss) (lookupDef t.defs lr.1) lr.2 label)
 
+/-! ### array identity: which arrays `create_aligned_global_axes` reads, creates and hands out -/
+
+/-- a store of numpy arrays; a reference is a position.  Arrays are only ever appended: the regenerated functions contain
+    no store into an array they did not create themselves (the translator refuses such source: `untranslatable`) -/
+abbrev Store := List (List Rat)
+
+def Store.read (s : Store) (r : Nat) : List Rat := s.getD r []
+
+/-- `create_aligned_global_axes` on references (`xarray` hands out the dataset's coordinate array itself, a writable
+    view): the first dataset's aligned axis IS its global-axis array (`aligned_global_axis = global_axis`), every later one
+    is a new list (the comprehension); `aligned_axis_values` is first that same array, later a new array (`np.unique`) -/
+def alignLoopRef (tol : Rat) (m : Method) : Store → Option Nat → List Nat → Option (Store × List Nat)
+  | s, _, [] => some (s, [])
+  | s, none, r :: rest => (alignLoopRef tol m s (some r) rest).map (fun p => (p.1, r :: p.2))
+  | s, some acc, r :: rest =>
+    let al := (s.read r).map (fun x => alignIndex x (s.read acc) tol m)
+    if hasDup al then none
+    else
+      (alignLoopRef tol m (s ++ [al] ++ [unique (s.read acc ++ al)]) (some (s.length + 1)) rest).map
+        (fun p => (p.1, s.length :: p.2))
+
+/-- `create_aligned_global_axes` on references: `refs` = the datasets' global-axis arrays in dataset order -/
+def createAlignedAxesRef (tol : Rat) (m : Method) (s : Store) (refs : List Nat) : Option (Store × List Nat) :=
+  alignLoopRef tol m s none refs
+
 /-! ### driver -/
 open Glotaran.Proto
 
@@ -231,7 +256,9 @@ def showTables (t : Tables) : String :=
     `axes tol method [[axis],…]`             → `ok [[aligned],…]` / `err AlignDataset`
     `provider tol method [[label,msize,[axis],[[col],…],none|[[wcol],…]],…]` → tables / error
     `result tol method [datasets as above] [[stacked residual],…]` → per dataset the residual
-      columns `get_result` reports (`ok [[[col],…],…]`) / error -/
+      columns `get_result` reports (`ok [[[col],…],…]`) / error
+    `refs tol method [[axis],…]`             → `create_aligned_global_axes` on references, the store initially holding
+      the given axes at references 0,1,…: `ok [out refs] [[input arrays afterwards],…] [[arrays handed out],…]` / error -/
 def driverStep (s : Unit) (ts : List Tree) : Unit × String :=
   match ts with
   | [.atom "align", x, tgt, tol, m] =>
@@ -244,6 +271,15 @@ def driverStep (s : Unit) (ts : List Tree) : Unit × String :=
       match createAlignedAxes tol m axes with
       | none => (s, "err AlignDataset")
       | some al => (s, "ok " ++ showList (al.map showRats))
+    | _, _, _ => (s, "bad-op")
+  | [.atom "refs", tol, m, axes] =>
+    match tol.rat?, parseMethod m, axes.ratss? with
+    | some tol, some m, some axes =>
+      match createAlignedAxesRef tol m axes (List.range axes.length) with
+      | none => (s, "err AlignDataset")
+      | some (s', outs) =>
+        (s, "ok " ++ showNats outs ++ " " ++ showList ((List.range axes.length).map (fun r => showRats (Store.read s' r)))
+          ++ " " ++ showList (outs.map (fun r => showRats (Store.read s' r))))
     | _, _, _ => (s, "bad-op")
   | [.atom "provider", tol, m, dss] =>
     match tol.rat?, parseMethod m, Tree.listOf? parseDataset dss with
